@@ -109,8 +109,10 @@ bool UndoHistoryImpl::mergeEvent(time_t now, const char *msg, char *buf, size_t 
     if(history_pos == 0)
         return false;
     for(int i=history_pos-1; i>=0; --i) {
+        //merged events carry the time of their last update, so an older
+        //event may stand behind a recent one
         if(difftime(now, history[i].first) > 2)
-            break;
+            continue;
         if(!strcmp(getUndoAddress(msg),
                     getUndoAddress(history[i].second)))
         {
